@@ -928,7 +928,9 @@ def run(ctx):
                 cyc = g.path(EI, a, removed_edges=removed) if a != EI else [EI]
                 break
         # generic: can eval_impl reach any member of CHAIN again?
-        back = [a for a in inner for b in g.succ.get(a, ()) if b in CHAIN and (a, b) not in removed and a not in CHAIN]
+        # (the chain's own forward edges do_eval -> eval_state -> eval_impl are not re-entries; a call of a chain member
+        # *by eval_impl itself* - seed C11-13: `return Self::eval_state(state, out)` for the parent template - is)
+        back = [a for a in inner for b in g.succ.get(a, ()) if b in CHAIN and (a, b) not in removed and (a not in CHAIN or a == EI)]
         ctx.ob("C11.R3.no-uncharged-interpreter-cycle", tag + "eval_impl", not back,
                "uncharged call path back into the interpreter: %s" % (
                    " -> ".join((g.path(EI, back[0], removed_edges=removed) or [back[0]]) + ["(interpreter)"]) if back else ""),
